@@ -2,22 +2,33 @@ package main
 
 // Layer (ii): System.Runtime.CheckWitness executed inside contracts deployed on a pkg/neotest chain.
 //
-// Four copies of one hand-assembled proxy contract are deployed (P0 without groups, P1 group g1, P2 groups
-// g1+g2, P3 group g2). Methods:
+// Five copies of one hand-assembled proxy contract are deployed (P0 without groups, P1 group g1, P2 groups
+// g1+g2, P3 group g2, T = P4 without groups but with three method tokens; P2 and P3 have `_initialize`). Methods:
 //
-//	cw(h)                         -> System.Runtime.CheckWitness(h)
-//	call(target, method, flags, args) -> System.Contract.Call
-//	dyn(script, flags, args)      -> System.Runtime.LoadScript
-//	onNEP17Payment(from, amount, data): if data != null { Notify("w", [CheckWitness(data)]) }
+//	cw(h)   -> [GetCallFlags, GetEntryScriptHash, GetCallingScriptHash, GetExecutingScriptHash, CheckWitness(h)]
+//	cws(h)  -> the same code, declared Safe          cwc(h) -> the same code reached through a CALL
+//	call(target, method, flags, args)  -> System.Contract.Call
+//	call2(t1, m1, f1, a1, t2, m2, f2, a2) -> System.Contract.Call, DROP, System.Contract.Call
+//	dyn(script, flags, args)           -> System.Runtime.LoadScript
+//	thr(x)                             -> THROW
+//	tcw0/1/2(h)                        -> CALLT 0/1/2   (only T has the tokens)
+//	verify(h)                          -> CheckWitness(h)   (contract witnesses, see verif.go)
+//	onNEP17Payment(from, amount, data): if data != null { Notify("w", [cw-array(data)]) }
 //
-// A cell is a call chain  entry script -> hop1 -> ... -> hopN (N <= 3), every hop a contract, a dynamic
-// script, or (last hop only) native GAS calling onNEP17Payment of a proxy (GAS.transfer of amount 0 sent by
-// the previous frame), the call flags of every hop, a signer list and the checked hash. The cell is executed
-// either in a test VM of the chain (any signer list) or as a real signed transaction in a new block
-// (signers = validator + funded accounts). The model gets the frames the harness derives from the chain
-// description alone.
+// A cell is a call chain  entry script -> hop1 -> ... -> hopN (N <= 3), every hop a contract call
+// (System.Contract.Call or, out of T, CALLT), a dynamic script (System.Runtime.LoadScript), or (last hop only)
+// native GAS calling onNEP17Payment of a proxy; every frame may first make side trips (a call or a dynamic
+// script that returns, or that throws and is caught by the frame's TRY) and script frames may run their body
+// inside a CALLed subroutine; the call flags of every hop (also insufficient or out of range ones), a signer
+// list and the checked argument (a hash, a public key in either encoding, junk). The cell is executed either
+// in a test VM of the chain (any signer list) or as a real signed transaction in a new block. The model gets
+// the STEP SEQUENCE (`x` line: LW / CC / CT / RL / NC / CL / RT / UW ... CW OI) and must reproduce the result
+// of CheckWitness and what the four getters return, with its frame machine; the oracle judges the result
+// against the declarative specification on the frames the harness derives itself.
 
 import (
+	"encoding/binary"
+	"encoding/json"
 	"errors"
 	"fmt"
 	"strings"
@@ -88,6 +99,7 @@ func (t *tb) TempDir() string           { return "/tmp/witness-harness" }
 type proxy struct {
 	hash   util.Uint160
 	groups []*keys.PublicKey
+	init   bool // has _initialize
 }
 
 type chainState struct {
@@ -96,6 +108,7 @@ type chainState struct {
 	e        *neotest.Executor
 	proxies  []proxy
 	gas      util.Uint160
+	mgmt     util.Uint160
 	accs     []neotest.Signer // funded single-signature accounts
 	u        *universe
 	accounts []util.Uint160 // accounts signers are drawn from in test-VM mode
@@ -123,43 +136,115 @@ func accountPriv(i int) *keys.PrivateKey {
 	return p
 }
 
+const (
+	nProxies   = 5
+	tokenProxy = 4
+)
+
+const (
+	sysCheckWitness = "System.Runtime.CheckWitness"
+	sysExecuting    = "System.Runtime.GetExecutingScriptHash"
+	sysCalling      = "System.Runtime.GetCallingScriptHash"
+	sysEntry        = "System.Runtime.GetEntryScriptHash"
+	sysCallFlags    = "System.Contract.GetCallFlags"
+	sysCall         = "System.Contract.Call"
+	sysLoadScript   = "System.Runtime.LoadScript"
+	sysNotify       = "System.Runtime.Notify"
+)
+
+// emitLeaf: argument on top of the stack -> [callflags, entry, calling, executing, CheckWitness(arg)].
+func emitLeaf(w *io.BinWriter) {
+	emit.Syscall(w, sysCheckWitness)
+	emit.Syscall(w, sysExecuting)
+	emit.Syscall(w, sysCalling)
+	emit.Syscall(w, sysEntry)
+	emit.Syscall(w, sysCallFlags)
+	emit.Opcodes(w, opcode.PUSH5, opcode.PACK)
+}
+
+func le32(v int) []byte {
+	b := make([]byte, 4)
+	binary.LittleEndian.PutUint32(b, uint32(int32(v)))
+	return b
+}
+
 // proxyContract assembles the NEF and manifest of one proxy.
-func proxyContract(sender util.Uint160, name string, groupIdx []int) *neotest.Contract {
+func proxyContract(sender util.Uint160, name string, groupIdx []int, withInit bool, tokens []nef.MethodToken) *neotest.Contract {
 	w := io.NewBufBinWriter()
 	offCW := w.Len()
-	emit.Syscall(w.BinWriter, "System.Runtime.CheckWitness")
+	emitLeaf(w.BinWriter)
+	emit.Opcodes(w.BinWriter, opcode.RET)
+	offCWC := w.Len()
+	emit.Instruction(w.BinWriter, opcode.CALLL, le32(offCW-offCWC))
 	emit.Opcodes(w.BinWriter, opcode.RET)
 	offCall := w.Len()
-	emit.Syscall(w.BinWriter, "System.Contract.Call")
+	emit.Syscall(w.BinWriter, sysCall)
+	emit.Opcodes(w.BinWriter, opcode.RET)
+	offCall2 := w.Len()
+	emit.Syscall(w.BinWriter, sysCall)
+	emit.Opcodes(w.BinWriter, opcode.DROP)
+	emit.Syscall(w.BinWriter, sysCall)
 	emit.Opcodes(w.BinWriter, opcode.RET)
 	offDyn := w.Len()
-	emit.Syscall(w.BinWriter, "System.Runtime.LoadScript")
+	emit.Syscall(w.BinWriter, sysLoadScript)
+	emit.Opcodes(w.BinWriter, opcode.RET)
+	offThr := w.Len()
+	emit.Opcodes(w.BinWriter, opcode.THROW)
+	offVerify := w.Len()
+	emit.Syscall(w.BinWriter, sysCheckWitness)
 	emit.Opcodes(w.BinWriter, opcode.RET)
 	offPay := w.Len()
 	emit.Opcodes(w.BinWriter, opcode.DROP, opcode.DROP, opcode.DUP, opcode.ISNULL)
 	emit.Instruction(w.BinWriter, opcode.JMPIFNOT, []byte{4})
 	emit.Opcodes(w.BinWriter, opcode.DROP, opcode.RET)
-	emit.Syscall(w.BinWriter, "System.Runtime.CheckWitness")
+	emitLeaf(w.BinWriter)
 	emit.Opcodes(w.BinWriter, opcode.PUSH1, opcode.PACK)
 	emit.String(w.BinWriter, "w")
-	emit.Syscall(w.BinWriter, "System.Runtime.Notify")
+	emit.Syscall(w.BinWriter, sysNotify)
 	emit.Opcodes(w.BinWriter, opcode.RET)
+	offInit := w.Len()
+	emit.Opcodes(w.BinWriter, opcode.RET)
+	var offTok []int
+	for i := range tokens {
+		offTok = append(offTok, w.Len())
+		emit.Instruction(w.BinWriter, opcode.CALLT, []byte{byte(i), 0})
+		emit.Opcodes(w.BinWriter, opcode.RET)
+	}
 	ne, err := nef.NewFile(w.Bytes())
 	if err != nil {
 		panic(err)
 	}
+	if len(tokens) > 0 {
+		ne.Tokens = tokens
+		ne.Checksum = ne.CalculateChecksum()
+	}
 	m := manifest.NewManifest(name)
 	par := func(n string, t smartcontract.ParamType) manifest.Parameter { return manifest.NewParameter(n, t) }
+	callPars := func(sfx string) []manifest.Parameter {
+		return []manifest.Parameter{par("target"+sfx, smartcontract.Hash160Type), par("method"+sfx, smartcontract.StringType),
+			par("flags"+sfx, smartcontract.IntegerType), par("args"+sfx, smartcontract.ArrayType)}
+	}
+	hpar := []manifest.Parameter{par("h", smartcontract.ByteArrayType)}
 	m.ABI.Methods = []manifest.Method{
-		{Name: "cw", Offset: offCW, Parameters: []manifest.Parameter{par("h", smartcontract.ByteArrayType)}, ReturnType: smartcontract.BoolType},
-		{Name: "call", Offset: offCall, Parameters: []manifest.Parameter{par("target", smartcontract.Hash160Type), par("method", smartcontract.StringType),
-			par("flags", smartcontract.IntegerType), par("args", smartcontract.ArrayType)}, ReturnType: smartcontract.AnyType},
+		{Name: "cw", Offset: offCW, Parameters: hpar, ReturnType: smartcontract.ArrayType},
+		{Name: "cws", Offset: offCW, Parameters: hpar, ReturnType: smartcontract.ArrayType, Safe: true},
+		{Name: "cwc", Offset: offCWC, Parameters: hpar, ReturnType: smartcontract.ArrayType},
+		{Name: "call", Offset: offCall, Parameters: callPars(""), ReturnType: smartcontract.AnyType},
+		{Name: "call2", Offset: offCall2, Parameters: append(callPars("1"), callPars("2")...), ReturnType: smartcontract.AnyType},
 		{Name: "dyn", Offset: offDyn, Parameters: []manifest.Parameter{par("script", smartcontract.ByteArrayType), par("flags", smartcontract.IntegerType),
 			par("args", smartcontract.ArrayType)}, ReturnType: smartcontract.AnyType},
+		{Name: "thr", Offset: offThr, Parameters: hpar, ReturnType: smartcontract.AnyType},
+		{Name: manifest.MethodVerify, Offset: offVerify, Parameters: hpar, ReturnType: smartcontract.BoolType},
 		{Name: manifest.MethodOnNEP17Payment, Offset: offPay, Parameters: []manifest.Parameter{par("from", smartcontract.AnyType),
 			par("amount", smartcontract.IntegerType), par("data", smartcontract.AnyType)}, ReturnType: smartcontract.VoidType},
 	}
-	m.ABI.Events = []manifest.Event{{Name: "w", Parameters: []manifest.Parameter{par("r", smartcontract.BoolType)}}}
+	if withInit {
+		m.ABI.Methods = append(m.ABI.Methods, manifest.Method{Name: manifest.MethodInit, Offset: offInit, ReturnType: smartcontract.VoidType})
+	}
+	for i := range tokens {
+		m.ABI.Methods = append(m.ABI.Methods, manifest.Method{Name: fmt.Sprintf("tcw%d", i), Offset: offTok[i], Parameters: hpar, ReturnType: smartcontract.ArrayType})
+	}
+	m.ABI.Events = []manifest.Event{{Name: "w", Parameters: []manifest.Parameter{par("r", smartcontract.AnyType)}}}
 	m.Permissions = []manifest.Permission{*manifest.NewPermission(manifest.PermissionWildcard)}
 	h := state.CreateContractHash(sender, ne.Checksum, name)
 	for _, gi := range groupIdx {
@@ -167,6 +252,60 @@ func proxyContract(sender util.Uint160, name string, groupIdx []int) *neotest.Co
 		m.Groups = append(m.Groups, manifest.Group{PublicKey: p.PublicKey(), Signature: p.Sign(h.BytesBE())})
 	}
 	return &neotest.Contract{Hash: h, NEF: ne, Manifest: m}
+}
+
+// deployContract: a contract whose only method is _deploy(data, update): if data != null { Notify("w", [cw-array(data)]) }.
+func deployContract(sender util.Uint160, name string, groupIdx []int) (*neotest.Contract, []*keys.PublicKey) {
+	w := io.NewBufBinWriter()
+	emit.Opcodes(w.BinWriter, opcode.NIP, opcode.DUP, opcode.ISNULL)
+	emit.Instruction(w.BinWriter, opcode.JMPIFNOT, []byte{4})
+	emit.Opcodes(w.BinWriter, opcode.DROP, opcode.RET)
+	emitLeaf(w.BinWriter)
+	emit.Opcodes(w.BinWriter, opcode.PUSH1, opcode.PACK)
+	emit.String(w.BinWriter, "w")
+	emit.Syscall(w.BinWriter, sysNotify)
+	emit.Opcodes(w.BinWriter, opcode.RET)
+	ne, err := nef.NewFile(w.Bytes())
+	if err != nil {
+		panic(err)
+	}
+	m := manifest.NewManifest(name)
+	m.ABI.Methods = []manifest.Method{{Name: manifest.MethodDeploy, Offset: 0, Parameters: []manifest.Parameter{
+		manifest.NewParameter("data", smartcontract.AnyType), manifest.NewParameter("update", smartcontract.BoolType)}, ReturnType: smartcontract.VoidType}}
+	m.ABI.Events = []manifest.Event{{Name: "w", Parameters: []manifest.Parameter{manifest.NewParameter("r", smartcontract.AnyType)}}}
+	m.Permissions = []manifest.Permission{*manifest.NewPermission(manifest.PermissionWildcard)}
+	h := state.CreateContractHash(sender, ne.Checksum, name)
+	var gs []*keys.PublicKey
+	for _, gi := range groupIdx {
+		p := groupPriv(gi)
+		m.Groups = append(m.Groups, manifest.Group{PublicKey: p.PublicKey(), Signature: p.Sign(h.BytesBE())})
+		gs = append(gs, p.PublicKey())
+	}
+	return &neotest.Contract{Hash: h, NEF: ne, Manifest: m}, gs
+}
+
+// deployArgs: nef, manifest, data of ContractManagement.deploy.
+func (c *chainCell) deployArgs() []any {
+	nb, err := c.dep.NEF.Bytes()
+	if err != nil {
+		panic(err)
+	}
+	mb, err := json.Marshal(c.dep.Manifest)
+	if err != nil {
+		panic(err)
+	}
+	return []any{nb, mb, c.arg}
+}
+
+// the method tokens of T: (target proxy, method, flags)
+var tokenSpec = []struct {
+	proxy  int
+	method string
+	flags  callflag.CallFlag
+}{
+	{1, "cw", callflag.All},
+	{2, "cw", callflag.ReadOnly},
+	{3, "cws", callflag.All},
 }
 
 func newChainState() (cs *chainState, err error) {
@@ -178,11 +317,18 @@ func newChainState() (cs *chainState, err error) {
 	}()
 	bc, validator := chain.NewSingleWithOptions(t, &chain.Options{Logger: zap.NewNop()})
 	e := neotest.NewExecutor(t, bc, validator, validator)
-	cs = &chainState{t: t, bc: bc, e: e, gas: e.NativeHash(t, nativenames.Gas)}
-	for i, gi := range [][]int{nil, {1}, {1, 2}, {2}} {
-		c := proxyContract(validator.ScriptHash(), fmt.Sprintf("proxy%d", i), gi)
+	cs = &chainState{t: t, bc: bc, e: e, gas: e.NativeHash(t, nativenames.Gas), mgmt: e.NativeHash(t, nativenames.Management)}
+	for i, gi := range [][]int{nil, {1}, {1, 2}, {2}, nil} {
+		var toks []nef.MethodToken
+		if i == tokenProxy {
+			for _, ts := range tokenSpec {
+				toks = append(toks, nef.MethodToken{Hash: cs.proxies[ts.proxy].hash, Method: ts.method, ParamCount: 1, HasReturn: true, CallFlag: ts.flags})
+			}
+		}
+		withInit := i == 2 || i == 3
+		c := proxyContract(validator.ScriptHash(), fmt.Sprintf("proxy%d", i), gi, withInit, toks)
 		e.DeployContract(t, c, nil)
-		p := proxy{hash: c.Hash}
+		p := proxy{hash: c.Hash, init: withInit}
 		for _, g := range gi {
 			p.groups = append(p.groups, groupPriv(g).PublicKey())
 		}
@@ -214,111 +360,358 @@ func newChainState() (cs *chainState, err error) {
 const (
 	hopContract = iota
 	hopDynamic
-	hopNative // GAS.transfer(prev, proxy, 0, h) -> proxy.onNEP17Payment ; last hop only
+	hopNative // GAS.transfer(prev, proxy, 0, arg) -> proxy.onNEP17Payment ; last hop only
+	hopToken  // CALLT out of T ; last hop only
+	hopDeploy // ContractManagement.deploy(nef, manifest, arg) -> newContract._deploy(arg, false) ; last hop only
+)
+
+const (
+	mCW  = iota // cw
+	mCWS        // cws: the Safe twin
 )
 
 type hop struct {
 	kind  int
-	proxy int               // hopContract, hopNative
-	flags callflag.CallFlag // requested flags of the call that creates this hop
+	proxy int               // hopContract, hopNative, hopToken (the token's target)
+	flags callflag.CallFlag // requested flags of the call that creates this hop (hopToken: the token's flags)
+	tok   int
+}
+
+// a side trip: a load that is over (returned, or threw and was caught) before the frame goes on
+type trip struct {
+	dyn    bool // System.Runtime.LoadScript instead of System.Contract.Call
+	proxy  int
+	mid    int // >= 0: the trip goes through P[mid].call(...)
+	flags  callflag.CallFlag
+	throws bool
 }
 
 type chainCell struct {
-	hops    []hop
-	signers []signer
-	h       util.Uint160
-	realTx  bool
-	nAccs   int    // realTx: number of funded accounts that sign after the validator
-	byKey   []byte // when set: CheckWitness is given this public key (whose account is h) instead of h
+	hops      []hop
+	trips     [][]trip // trips[j]: made by frame j before it goes on (frame 0 = entry script, hop i creates frame i+1)
+	inner     []bool   // inner[j]: frame j does its work inside a CALLed subroutine (script frames; a contract leaf uses cwc)
+	leaf      int      // mCW / mCWS when the last frame is a contract entered by System.Contract.Call
+	signers   []signer
+	h         util.Uint160 // the account CheckWitness is (meant to be) asked about
+	arg       []byte       // the bytes handed to System.Runtime.CheckWitness
+	argKind   string
+	realTx    bool
+	nAccs     int               // realTx: number of funded accounts that sign after the validator
+	dep       *neotest.Contract // hopDeploy: the contract that is deployed (its hash depends on the sender)
+	depGroups []*keys.PublicKey
+	// witness verification (verif.go): frame 0 is the verification script, loaded ReadOnly by InitVerificationContext,
+	// and must leave one boolean
+	verif     bool
+	noSigners bool              // the container is not a transaction
+	entryOps  []string          // the steps that replace `LW entry All`
+	probe     int               // >= 0: the verdict is GetCallFlags() == probe in the last frame instead of the witness check
+	endFlags  callflag.CallFlag // set by env: the flags of the last frame as the harness derives them
 }
 
-// arg is the byte string handed to System.Runtime.CheckWitness.
-func (c *chainCell) arg() []byte {
-	if c.byKey != nil {
-		return c.byKey
+var zero20 = make([]byte, 20)
+
+func (c *chainCell) isScriptFrame(j int) bool { return j == 0 || c.hops[j-1].kind == hopDynamic }
+
+// tripCall: target, method, flags, args of the System.Contract.Call that starts a call trip.
+func (cs *chainState) tripCall(t trip) []any {
+	m := "cw"
+	if t.throws {
+		m = "thr"
 	}
-	return c.h.BytesBE()
+	if t.mid >= 0 {
+		return []any{cs.proxies[t.mid].hash, "call", int64(callflag.All), []any{cs.proxies[t.proxy].hash, m, int64(t.flags), []any{zero20}}}
+	}
+	return []any{cs.proxies[t.proxy].hash, m, int64(t.flags), []any{zero20}}
 }
 
-func checkScript(arg []byte) []byte {
+func throwScript() []byte { return []byte{byte(opcode.PUSH1), byte(opcode.THROW)} }
+
+func tripDynScript(t trip) []byte {
+	if t.throws {
+		return throwScript()
+	}
 	w := io.NewBufBinWriter()
-	emit.Bytes(w.BinWriter, arg)
-	emit.Syscall(w.BinWriter, "System.Runtime.CheckWitness")
+	emit.Bytes(w.BinWriter, zero20)
+	emitLeaf(w.BinWriter)
 	emit.Opcodes(w.BinWriter, opcode.RET)
-	return w.Bytes()
+	return append(w.Bytes(), byte(opcode.PUSHINT8), byte(t.proxy)) // a trailing instruction makes the hash depend on the trip
 }
 
-// bodyScript: what a script frame (entry or dynamic script) at position k executes. Position 0 is the entry.
-func (cs *chainState) bodyScript(c *chainCell, k int) []byte {
-	if k == len(c.hops) {
-		return checkScript(c.arg())
+// emitTrip: the code of a side trip inside a script frame.
+func (cs *chainState) emitTrip(w *io.BinWriter, t trip) {
+	in := io.NewBufBinWriter()
+	if t.dyn {
+		emit.Array(in.BinWriter)
+		emit.Int(in.BinWriter, int64(t.flags))
+		emit.Bytes(in.BinWriter, tripDynScript(t))
+		emit.Syscall(in.BinWriter, sysLoadScript)
+	} else {
+		a := cs.tripCall(t)
+		emit.AppCall(in.BinWriter, a[0].(util.Uint160), a[1].(string), callflag.CallFlag(a[2].(int64)), a[3].([]any)...)
 	}
-	nx := c.hops[k]
+	emit.Opcodes(in.BinWriter, opcode.DROP)
+	code := in.Bytes()
+	if !t.throws {
+		w.WriteBytes(code)
+		return
+	}
+	// TRY_L catch,0 ; code ; ENDTRY_L end ; catch: DROP ; ENDTRY_L +5 ; end:
+	emit.Instruction(w, opcode.TRYL, append(le32(9+len(code)+5), le32(0)...))
+	w.WriteBytes(code)
+	emit.Instruction(w, opcode.ENDTRYL, le32(5+1+5))
+	emit.Opcodes(w, opcode.DROP)
+	emit.Instruction(w, opcode.ENDTRYL, le32(5))
+}
+
+// bodyScript: what the script frame j (entry or dynamic script) executes.
+func (cs *chainState) bodyScript(c *chainCell, j int) []byte {
 	w := io.NewBufBinWriter()
-	switch nx.kind {
-	case hopContract:
-		m, args := cs.bodyCall(c, k+1)
-		emit.AppCall(w.BinWriter, cs.proxies[nx.proxy].hash, m, nx.flags, args...)
-	case hopDynamic:
-		emit.Array(w.BinWriter)
-		emit.Int(w.BinWriter, int64(nx.flags))
-		emit.Bytes(w.BinWriter, cs.bodyScript(c, k+1))
-		emit.Syscall(w.BinWriter, "System.Runtime.LoadScript")
-	case hopNative:
-		// GAS.transfer(this script, proxy, 0, h)
-		emit.Bytes(w.BinWriter, c.arg())
-		emit.Int(w.BinWriter, 0)
-		emit.Bytes(w.BinWriter, cs.proxies[nx.proxy].hash.BytesBE())
-		emit.Syscall(w.BinWriter, "System.Runtime.GetExecutingScriptHash")
-		emit.Int(w.BinWriter, 4)
-		emit.Opcodes(w.BinWriter, opcode.PACK)
-		emit.AppCallNoArgs(w.BinWriter, cs.gas, "transfer", nx.flags)
+	for _, t := range c.trips[j] {
+		cs.emitTrip(w.BinWriter, t)
 	}
-	emit.Opcodes(w.BinWriter, opcode.RET)
-	return w.Bytes()
-}
-
-// bodyCall: the method and arguments with which the contract hop at position k (1-based) is entered.
-func (cs *chainState) bodyCall(c *chainCell, k int) (string, []any) {
-	if k == len(c.hops) {
-		return "cw", []any{c.arg()}
-	}
-	me := cs.proxies[c.hops[k-1].proxy].hash
-	nx := c.hops[k]
-	switch nx.kind {
-	case hopContract:
-		m, args := cs.bodyCall(c, k+1)
-		return "call", []any{cs.proxies[nx.proxy].hash, m, int64(nx.flags), args}
-	case hopDynamic:
-		return "dyn", []any{cs.bodyScript(c, k+1), int64(nx.flags), []any{}}
-	default:
-		return "call", []any{cs.gas, "transfer", int64(nx.flags), []any{me, cs.proxies[nx.proxy].hash, int64(0), c.arg()}}
-	}
-}
-
-// env derives the frames from the chain description.
-func (cs *chainState) env(c *chainCell, entry []byte) *env {
-	fr := []frame{{hash: hash.Hash160(entry), rs: true}}
-	flags := []callflag.CallFlag{callflag.All}
-	for k, hp := range c.hops {
-		prev := fr[len(fr)-1]
-		pf := flags[len(flags)-1]
-		switch hp.kind {
+	if j == len(c.hops) {
+		emit.Bytes(w.BinWriter, c.arg)
+		emitLeaf(w.BinWriter)
+	} else {
+		nx := c.hops[j]
+		switch nx.kind {
 		case hopContract:
-			f := pf & hp.flags
-			fr = append(fr, frame{hash: cs.proxies[hp.proxy].hash, caller: prev.hash, rs: f&callflag.ReadStates != 0})
-			flags = append(flags, f)
+			m, args := cs.bodyCall(c, j+1)
+			emit.AppCall(w.BinWriter, cs.proxies[nx.proxy].hash, m, nx.flags, args...)
 		case hopDynamic:
-			f := pf & hp.flags & callflag.ReadOnly
-			fr = append(fr, frame{hash: hash.Hash160(cs.bodyScript(c, k+1)), caller: prev.hash, rs: f&callflag.ReadStates != 0})
-			flags = append(flags, f)
+			emit.Array(w.BinWriter)
+			emit.Int(w.BinWriter, int64(nx.flags))
+			emit.Bytes(w.BinWriter, cs.bodyScript(c, j+1))
+			emit.Syscall(w.BinWriter, sysLoadScript)
 		case hopNative:
-			f := pf & hp.flags
-			fr = append(fr, frame{hash: cs.gas, caller: prev.hash, rs: f&callflag.ReadStates != 0})
-			fr = append(fr, frame{hash: cs.proxies[hp.proxy].hash, caller: cs.gas, rs: f&callflag.ReadStates != 0})
-			flags = append(flags, f, f)
+			// GAS.transfer(this script, proxy, 0, arg)
+			emit.Bytes(w.BinWriter, c.arg)
+			emit.Int(w.BinWriter, 0)
+			emit.Bytes(w.BinWriter, cs.proxies[nx.proxy].hash.BytesBE())
+			emit.Syscall(w.BinWriter, sysExecuting)
+			emit.Int(w.BinWriter, 4)
+			emit.Opcodes(w.BinWriter, opcode.PACK)
+			emit.AppCallNoArgs(w.BinWriter, cs.gas, "transfer", nx.flags)
+		case hopDeploy:
+			emit.AppCall(w.BinWriter, cs.mgmt, "deploy", nx.flags, c.deployArgs()...)
 		}
 	}
+	if j == 0 && c.verif {
+		if c.probe >= 0 {
+			emit.Opcodes(w.BinWriter, opcode.PUSH0, opcode.PICKITEM) // the call flags of the info array
+			emit.Int(w.BinWriter, int64(c.probe))
+			emit.Opcodes(w.BinWriter, opcode.NUMEQUAL)
+		} else {
+			emit.Opcodes(w.BinWriter, opcode.PUSH4, opcode.PICKITEM) // the boolean of the info array
+		}
+	}
+	emit.Opcodes(w.BinWriter, opcode.RET)
+	body := w.Bytes()
+	if !c.inner[j] {
+		return body
+	}
+	// CALL_L sub ; RET ; sub: body
+	o := io.NewBufBinWriter()
+	emit.Instruction(o.BinWriter, opcode.CALLL, le32(6))
+	emit.Opcodes(o.BinWriter, opcode.RET)
+	o.WriteBytes(body)
+	return o.Bytes()
+}
+
+// bodyCall: the method and arguments with which the contract frame j is entered.
+func (cs *chainState) bodyCall(c *chainCell, j int) (string, []any) {
+	if j == len(c.hops) {
+		switch {
+		case c.inner[j]:
+			return "cwc", []any{c.arg}
+		case c.leaf == mCWS:
+			return "cws", []any{c.arg}
+		}
+		return "cw", []any{c.arg}
+	}
+	me := cs.proxies[c.hops[j-1].proxy].hash
+	nx := c.hops[j]
+	var main []any
+	switch nx.kind {
+	case hopContract:
+		m, args := cs.bodyCall(c, j+1)
+		main = []any{cs.proxies[nx.proxy].hash, m, int64(nx.flags), args}
+	case hopDynamic:
+		return "dyn", []any{cs.bodyScript(c, j+1), int64(nx.flags), []any{}}
+	case hopToken:
+		return fmt.Sprintf("tcw%d", nx.tok), []any{c.arg}
+	case hopDeploy:
+		main = []any{cs.mgmt, "deploy", int64(nx.flags), c.deployArgs()}
+	default:
+		main = []any{cs.gas, "transfer", int64(nx.flags), []any{me, cs.proxies[nx.proxy].hash, int64(0), c.arg}}
+	}
+	if len(c.trips[j]) > 0 {
+		return "call2", append(cs.tripCall(c.trips[j][0]), main...)
+	}
+	return "call", main
+}
+
+func (cs *chainState) tripOps(t trip) []string {
+	var ops []string
+	depth := 0
+	if t.dyn {
+		ops = append(ops, fmt.Sprintf("RL %s %d", hTok(hash.Hash160(tripDynScript(t))), int64(t.flags)))
+		depth = 1
+	} else {
+		legs := []struct {
+			p int
+			f callflag.CallFlag
+		}{{t.proxy, t.flags}}
+		if t.mid >= 0 {
+			legs = append([]struct {
+				p int
+				f callflag.CallFlag
+			}{{t.mid, callflag.All}}, legs...)
+		}
+		for _, l := range legs {
+			ops = append(ops, fmt.Sprintf("CC %s %d 0 %d", hTok(cs.proxies[l.p].hash), int64(l.f), b01(cs.proxies[l.p].init)))
+			if cs.proxies[l.p].init {
+				ops = append(ops, "RT")
+			}
+			depth++
+		}
+	}
+	if t.throws {
+		return append(ops, fmt.Sprintf("UW %d", depth))
+	}
+	ops = append(ops, "CQ "+hx.Hex(zero20)) // the trip's own CheckWitness: its result is dropped, a fault is not
+	for ; depth > 0; depth-- {
+		ops = append(ops, "RT")
+	}
+	return ops
+}
+
+// ops: the step sequence of the cell for the model.
+func (cs *chainState) ops(c *chainCell, entry []byte) []string {
+	ops := []string{fmt.Sprintf("LW %s %d", hTok(hash.Hash160(entry)), byte(callflag.All))}
+	if c.verif {
+		ops = append([]string{}, c.entryOps...)
+	}
+	for j := 0; j <= len(c.hops); j++ {
+		if c.inner[j] {
+			ops = append(ops, "CL")
+		}
+		for _, t := range c.trips[j] {
+			ops = append(ops, cs.tripOps(t)...)
+		}
+		if j == len(c.hops) {
+			break
+		}
+		hp := c.hops[j]
+		ini := func(p int) {
+			if cs.proxies[p].init {
+				ops = append(ops, "RT")
+			}
+		}
+		switch hp.kind {
+		case hopContract:
+			safe := j+1 == len(c.hops) && c.leaf == mCWS && !c.inner[j+1]
+			ops = append(ops, fmt.Sprintf("CC %s %d %d %d", hTok(cs.proxies[hp.proxy].hash), int64(hp.flags), b01(safe), b01(cs.proxies[hp.proxy].init)))
+			ini(hp.proxy)
+		case hopDynamic:
+			ops = append(ops, fmt.Sprintf("RL %s %d", hTok(hash.Hash160(cs.bodyScript(c, j+1))), int64(hp.flags)))
+		case hopNative:
+			ops = append(ops, fmt.Sprintf("CC %s %d 0 0", hTok(cs.gas), int64(hp.flags)))
+			ops = append(ops, fmt.Sprintf("NC %s %s %d", hTok(cs.gas), hTok(cs.proxies[hp.proxy].hash), b01(cs.proxies[hp.proxy].init)))
+			ini(hp.proxy)
+		case hopDeploy:
+			ops = append(ops, fmt.Sprintf("CC %s %d 0 0", hTok(cs.mgmt), int64(hp.flags)))
+			ops = append(ops, fmt.Sprintf("NC %s %s 0", hTok(cs.mgmt), hTok(c.dep.Hash)))
+		case hopToken:
+			ts := tokenSpec[hp.tok]
+			ops = append(ops, fmt.Sprintf("CT %s %d %d %d", hTok(cs.proxies[ts.proxy].hash), byte(ts.flags), b01(ts.method == "cws"), b01(cs.proxies[ts.proxy].init)))
+			ini(ts.proxy)
+		}
+	}
+	if c.verif && c.probe >= 0 {
+		return append(ops, "CQ "+hx.Hex(c.arg), fmt.Sprintf("FE %d", c.probe))
+	}
+	if c.verif {
+		return append(ops, "CW "+hx.Hex(c.arg))
+	}
+	return append(ops, "CW "+hx.Hex(c.arg), "OI")
+}
+
+// env derives the frames (for the oracle) and the fault the flags must lead to, from the chain description.
+func (cs *chainState) env(c *chainCell, entry []byte) (*env, string) {
+	fr := []frame{{hash: hash.Hash160(entry), rs: true}}
+	cur := callflag.All
+	if c.verif {
+		cur = callflag.ReadOnly
+	}
+	fault := ""
+	need := func(f callflag.CallFlag, class string) bool {
+		if fault == "" && !cur.Has(f) {
+			fault = class
+		}
+		return fault == ""
+	}
+	rng := func(f callflag.CallFlag) bool {
+		if fault == "" && f&^callflag.All != 0 {
+			fault = "fault:flagsrange"
+		}
+		return fault == ""
+	}
+	for j := 0; j <= len(c.hops) && fault == ""; j++ {
+		for _, t := range c.trips[j] {
+			ok := false
+			if t.dyn {
+				ok = need(callflag.AllowCall, "fault:missingflags") && rng(t.flags)
+			} else {
+				ok = need(callflag.ReadOnly, "fault:missingflags") && rng(t.flags)
+			}
+			if ok && !t.throws && c.noSigners {
+				fault = "err:nosigners" // the trip's own CheckWitness(0) faults without any signer
+			}
+		}
+		if j == len(c.hops) || fault != "" {
+			break
+		}
+		hp := c.hops[j]
+		prev := fr[len(fr)-1]
+		switch hp.kind {
+		case hopContract:
+			if need(callflag.ReadOnly, "fault:missingflags") && rng(hp.flags) {
+				cur &= hp.flags
+				if j+1 == len(c.hops) && c.leaf == mCWS && !c.inner[j+1] {
+					cur &^= callflag.WriteStates | callflag.AllowNotify
+				}
+				fr = append(fr, frame{hash: cs.proxies[hp.proxy].hash, caller: prev.hash, rs: cur&callflag.ReadStates != 0})
+			}
+		case hopToken:
+			ts := tokenSpec[hp.tok]
+			if need(callflag.ReadOnly, "fault:invalidflags") {
+				cur &= ts.flags
+				if ts.method == "cws" {
+					cur &^= callflag.WriteStates | callflag.AllowNotify
+				}
+				fr = append(fr, frame{hash: cs.proxies[ts.proxy].hash, caller: prev.hash, rs: cur&callflag.ReadStates != 0})
+			}
+		case hopDynamic:
+			if need(callflag.AllowCall, "fault:missingflags") && rng(hp.flags) {
+				cur = cur & hp.flags & callflag.ReadOnly
+				fr = append(fr, frame{hash: hash.Hash160(cs.bodyScript(c, j+1)), caller: prev.hash, rs: cur&callflag.ReadStates != 0})
+			}
+		case hopDeploy:
+			if need(callflag.ReadOnly, "fault:missingflags") && rng(hp.flags) {
+				cur &= hp.flags
+				fr = append(fr, frame{hash: cs.mgmt, caller: prev.hash, rs: cur&callflag.ReadStates != 0})
+				fr = append(fr, frame{hash: c.dep.Hash, caller: cs.mgmt, rs: cur&callflag.ReadStates != 0})
+			}
+		case hopNative:
+			if need(callflag.ReadOnly, "fault:missingflags") && rng(hp.flags) {
+				cur &= hp.flags
+				fr = append(fr, frame{hash: cs.gas, caller: prev.hash, rs: cur&callflag.ReadStates != 0})
+				fr = append(fr, frame{hash: cs.proxies[hp.proxy].hash, caller: cs.gas, rs: cur&callflag.ReadStates != 0})
+			}
+		}
+	}
+	c.endFlags = cur
 	e := &env{}
 	for i := len(fr) - 1; i >= 0; i-- {
 		e.frames = append(e.frames, fr[i])
@@ -326,46 +719,140 @@ func (cs *chainState) env(c *chainCell, entry []byte) *env {
 	for _, p := range cs.proxies {
 		e.contracts = append(e.contracts, contractInfo{hash: p.hash, groups: p.groups})
 	}
-	e.contracts = append(e.contracts, contractInfo{hash: cs.gas})
-	return e
+	e.contracts = append(e.contracts, contractInfo{hash: cs.gas}, contractInfo{hash: cs.mgmt})
+	if c.dep != nil {
+		e.contracts = append(e.contracts, contractInfo{hash: c.dep.Hash, groups: c.depGroups})
+	}
+	return e, fault
 }
 
 var finalFlags = []callflag.CallFlag{callflag.All, callflag.ReadOnly, callflag.AllowCall, callflag.NoneFlag, callflag.ReadStates,
 	callflag.WriteStates | callflag.AllowNotify, callflag.All &^ callflag.ReadStates}
 
-func (cs *chainState) genCell(r *prng.R) *chainCell {
-	c := &chainCell{}
+func (cs *chainState) genTrip(r *prng.R, scriptFrame bool) trip {
+	t := trip{proxy: r.Intn(nProxies), mid: -1, flags: callflag.All}
+	if r.Chance(1, 4) {
+		t.flags = []callflag.CallFlag{callflag.ReadOnly, callflag.ReadStates, callflag.NoneFlag, callflag.States}[r.Intn(4)]
+	}
+	if r.Chance(1, 4) {
+		t.mid = r.Intn(nProxies)
+	}
+	if scriptFrame {
+		t.dyn = r.Chance(1, 4)
+		t.throws = r.Chance(1, 3)
+		if t.dyn {
+			t.mid = -1
+		}
+	}
+	return t
+}
+
+// genArg picks the argument of CheckWitness for the account h.
+func (cs *chainState) genArg(r *prng.R, c *chainCell) {
+	c.arg, c.argKind = c.h.BytesBE(), "hash"
+	for _, a := range cs.accs {
+		if a.ScriptHash() == c.h && r.Chance(1, 2) {
+			pk := a.(neotest.SingleSigner).Account().PublicKey()
+			if r.Chance(1, 3) {
+				c.arg, c.argKind = pk.UncompressedBytes(), "key-uncompressed"
+			} else {
+				c.arg, c.argKind = pk.Bytes(), "key-compressed"
+			}
+			return
+		}
+	}
+	if r.Chance(1, 30) {
+		// neither a hash nor a key: wrong lengths, wrong prefixes
+		n := []int{0, 1, 19, 21, 32, 33, 33, 34, 64, 65, 65, 66}[r.Intn(12)]
+		b := r.Bytes(n)
+		if n == 33 {
+			b[0] = []byte{0x00, 0x01, 0x04, 0x05, 0xff}[r.Intn(5)]
+		}
+		if n == 65 {
+			b[0] = []byte{0x00, 0x02, 0x03, 0x05}[r.Intn(4)]
+		}
+		c.arg, c.argKind = b, "junk"
+	}
+}
+
+func (cs *chainState) genCell(r *prng.R) *chainCell { return cs.genCellK(r, -1) }
+
+// genCellK: k >= 0 allows a deployment as the last hop (the new contract's name carries k, so it is new on the chain).
+func (cs *chainState) genCellK(r *prng.R, k int) *chainCell {
+	c := &chainCell{probe: -1}
 	n := []int{0, 1, 1, 2, 2, 2, 3, 3, 3}[r.Intn(9)]
 	native := n > 0 && r.Chance(1, 6)
-	for k := 0; k < n; k++ {
-		last := k == n-1
+	deploy := native && k >= 0 && r.Chance(1, 3)
+	token := n > 1 && !native && r.Chance(1, 6)
+	faulty := r.Chance(1, 12) // may hand insufficient or out-of-range flags to an intermediate hop
+	for hi := 0; hi < n; hi++ {
+		last := hi == n-1
 		hp := hop{flags: callflag.All}
 		switch {
+		case last && deploy:
+			hp.kind = hopDeploy // ContractManagement.deploy needs all flags
 		case last && native:
 			hp.kind = hopNative
-			hp.proxy = r.Intn(len(cs.proxies))
+			hp.proxy = r.Intn(nProxies)
 			if r.Chance(1, 4) {
 				hp.flags = callflag.States | callflag.AllowCall | callflag.AllowNotify
+			}
+		case last && token:
+			hp.kind = hopToken
+			hp.tok = r.Intn(len(tokenSpec))
+			hp.proxy = tokenSpec[hp.tok].proxy
+			hp.flags = tokenSpec[hp.tok].flags
+		case hi == n-2 && token:
+			hp.kind = hopContract
+			hp.proxy = tokenProxy
+			if r.Chance(1, 5) {
+				hp.flags = []callflag.CallFlag{callflag.ReadOnly, callflag.ReadStates, callflag.AllowCall, callflag.NoneFlag}[r.Intn(4)]
 			}
 		case r.Chance(1, 4) && !native:
 			// a dynamic script drops the flags to ReadOnly, which a later GAS.transfer cannot live with
 			hp.kind = hopDynamic
 		default:
 			hp.kind = hopContract
-			hp.proxy = r.Intn(len(cs.proxies))
+			hp.proxy = r.Intn(nProxies)
 		}
-		if hp.kind != hopNative {
+		if hp.kind != hopNative && hp.kind != hopDeploy && hp.kind != hopToken && !(hi == n-2 && token) {
 			switch {
 			case last:
 				hp.flags = finalFlags[r.Intn(len(finalFlags))]
 				if r.Chance(1, 2) {
 					hp.flags = callflag.All
 				}
+			case !native && faulty && r.Chance(1, 2):
+				hp.flags = []callflag.CallFlag{callflag.ReadStates, callflag.AllowCall, callflag.NoneFlag, 16, 31, 0x80 | callflag.All,
+					callflag.States | callflag.AllowNotify}[r.Intn(7)]
 			case !native && r.Chance(1, 3):
 				hp.flags = callflag.ReadOnly
 			}
 		}
 		c.hops = append(c.hops, hp)
+	}
+	c.trips = make([][]trip, n+1)
+	c.inner = make([]bool, n+1)
+	for j := 0; j <= n; j++ {
+		script := c.isScriptFrame(j)
+		switch {
+		case script:
+			c.inner[j] = r.Chance(1, 5)
+			if r.Chance(1, 3) {
+				for m := 1 + r.Intn(2); m > 0; m-- {
+					c.trips[j] = append(c.trips[j], cs.genTrip(r, true))
+				}
+			}
+		case j == n && c.hops[j-1].kind == hopContract:
+			c.inner[j] = r.Chance(1, 5) // cwc
+			if !c.inner[j] && r.Chance(1, 4) {
+				c.leaf = mCWS
+			}
+		case j < n && c.hops[j-1].kind == hopContract && (c.hops[j].kind == hopContract || c.hops[j].kind == hopNative || c.hops[j].kind == hopDeploy):
+			if r.Chance(1, 4) {
+				c.trips[j] = []trip{cs.genTrip(r, false)}
+			}
+		}
 	}
 	c.realTx = r.Chance(1, 6)
 	if c.realTx {
@@ -399,10 +886,12 @@ func (cs *chainState) genCell(r *prng.R) *chainCell {
 		// a frame of the chain (the caller shortcut, or a contract that is not the caller)
 		hp := c.hops[r.Intn(n)]
 		switch hp.kind {
-		case hopContract:
+		case hopContract, hopToken:
 			c.h = cs.proxies[hp.proxy].hash
 		case hopNative:
 			c.h = cs.gas
+		case hopDeploy:
+			c.h = cs.mgmt
 		default:
 			c.h = cs.accounts[r.Intn(len(cs.accounts))]
 		}
@@ -411,10 +900,15 @@ func (cs *chainState) genCell(r *prng.R) *chainCell {
 	default:
 		c.h = cs.accounts[r.Intn(len(cs.accounts))]
 	}
-	for _, a := range cs.accs {
-		if a.ScriptHash() == c.h && r.Chance(1, 3) {
-			c.byKey = a.(neotest.SingleSigner).Account().PublicKey().Bytes()
+	cs.genArg(r, c)
+	if deploy {
+		var gidx []int
+		for g := 1; g <= 3; g++ {
+			if r.Chance(1, 3) {
+				gidx = append(gidx, g)
+			}
 		}
+		c.dep, c.depGroups = deployContract(c.signers[0].account, fmt.Sprintf("dep%d", k), gidx)
 	}
 	return c
 }
@@ -425,19 +919,48 @@ func classifyFault(s string) string {
 		return "err:noreadstates"
 	case strings.Contains(s, "no valid signers"):
 		return "err:nosigners"
+	case strings.Contains(s, "neither a key nor a hash"):
+		return "fault:badarg"
+	case strings.Contains(s, "missing call flags"):
+		return "fault:missingflags"
+	case strings.Contains(s, "call flags out of range"):
+		return "fault:flagsrange"
+	case strings.Contains(s, "invalid call flags"):
+		return "fault:invalidflags"
 	}
 	return "fault:" + strings.ReplaceAll(s, " ", "_")
 }
 
-func boolItem(it stackitem.Item) (string, error) {
-	if it == nil || it.Type() != stackitem.BooleanT {
+// infoObs turns the array built by emitLeaf into the observation `<bool> i:<executing>,<calling>,<entry>,<flags>`.
+func infoObs(it stackitem.Item) (string, error) {
+	arr, ok := it.Value().([]stackitem.Item)
+	if !ok || len(arr) != 5 {
+		return "", errors.New("not the info array")
+	}
+	if arr[4].Type() != stackitem.BooleanT {
 		return "", errors.New("not a boolean")
 	}
-	b, err := it.TryBool()
+	b, err := arr[4].TryBool()
 	if err != nil {
 		return "", err
 	}
-	return fmt.Sprint(b), nil
+	var hs [3]string
+	for i, x := range []stackitem.Item{arr[3], arr[2], arr[1]} {
+		bs, err := x.TryBytes()
+		if err != nil {
+			return "", err
+		}
+		u, err := util.Uint160DecodeBytesBE(bs)
+		if err != nil {
+			return "", err
+		}
+		hs[i] = hTok(u)
+	}
+	fl, err := arr[0].TryInteger()
+	if err != nil {
+		return "", err
+	}
+	return fmt.Sprintf("%v i:%s,%s,%s,%d", b, hs[0], hs[1], hs[2], fl.Int64()), nil
 }
 
 // outcome turns the VM state, result stack and notifications into an observation.
@@ -448,20 +971,27 @@ func (cs *chainState) outcome(c *chainCell, halted bool, fault string, stack []s
 	if len(stack) != 1 {
 		return fmt.Sprintf("bad-stack:%d", len(stack))
 	}
-	top, err := boolItem(stack[0])
-	if err != nil {
-		return "bad-result:" + stack[0].Type().String()
-	}
 	n := len(c.hops)
-	if n > 0 && c.hops[n-1].kind == hopNative {
-		if top != "true" {
-			return "transfer-failed"
+	if n > 0 && (c.hops[n-1].kind == hopNative || c.hops[n-1].kind == hopDeploy) {
+		from := c.dep
+		emitter := util.Uint160{}
+		if c.hops[n-1].kind == hopNative {
+			top, err := stack[0].TryBool()
+			if err != nil || stack[0].Type() != stackitem.BooleanT {
+				return "bad-result:" + stack[0].Type().String()
+			}
+			if !top {
+				return "transfer-failed"
+			}
+			emitter = cs.proxies[c.hops[n-1].proxy].hash
+		} else {
+			emitter = from.Hash
 		}
 		var res []string
 		for _, ev := range events {
-			if ev.Name == "w" && ev.ScriptHash == cs.proxies[c.hops[n-1].proxy].hash {
+			if ev.Name == "w" && ev.ScriptHash == emitter {
 				arr := ev.Item.Value().([]stackitem.Item)
-				s, err := boolItem(arr[0])
+				s, err := infoObs(arr[0])
 				if err != nil {
 					return "bad-event"
 				}
@@ -473,7 +1003,11 @@ func (cs *chainState) outcome(c *chainCell, halted bool, fault string, stack []s
 		}
 		return res[0]
 	}
-	return top
+	s, err := infoObs(stack[0])
+	if err != nil {
+		return "bad-result:" + stack[0].Type().String()
+	}
+	return s
 }
 
 func (cs *chainState) runCell(c *chainCell, entry []byte) (obs string) {
@@ -538,6 +1072,10 @@ func (c *chainCell) shape() string {
 			sb.WriteString(">C")
 		case hopDynamic:
 			sb.WriteString(">D")
+		case hopToken:
+			sb.WriteString(">T")
+		case hopDeploy:
+			sb.WriteString(">M>deploy")
 		default:
 			sb.WriteString(">N>C")
 		}
@@ -547,20 +1085,64 @@ func (c *chainCell) shape() string {
 
 func runChainCase(o *hx.Out, k int, r *prng.R, cs *chainState) {
 	o.Case(k)
-	c := cs.genCell(r)
+	c := cs.genCellK(r, k)
 	entry := cs.bodyScript(c, 0)
-	e := cs.env(c, entry)
+	e, wantFault := cs.env(c, entry)
 	obs := cs.runCell(c, entry)
-	line := fmt.Sprintf("cw %s %s %s", hTok(c.h), e.tok(), signersTok(c.signers))
+	line := fmt.Sprintf("x %s - T %s %s", contractsTok(e.contracts), signersTok(c.signers), strings.Join(cs.ops(c, entry), " "))
 	o.Line(line, obs)
 	layer := "chain-vm"
 	if c.realTx {
 		layer = "chain-tx"
 	}
-	judge(o, k, layer, cs.u, e, c.signers, c.h, obs, func() string { return c.shape() + " " + line })
+	desc := func() string { return c.shape() + " " + line }
+	o.Count(layer + ":arg=" + c.argKind)
+	switch {
+	case wantFault != "" || strings.HasPrefix(obs, "fault:"):
+		// the flags of the chain do not let it reach the check (or the argument is junk)
+		want := wantFault
+		if want == "" && c.argKind == "junk" && len(c.arg) != 20 {
+			want = "fault:badarg"
+		}
+		o.Count(layer + ":obs=" + obs)
+		if obs != want {
+			o.Fail("witness-unexpected-vm-fault", k, "%s: real=%s expected=%s %s", layer, obs, want, desc())
+		}
+	default:
+		h := c.h
+		if c.argKind == "junk" {
+			h, _ = util.Uint160DecodeBytesBE(c.arg) // 20 random bytes are a hash
+		}
+		cw, info, _ := strings.Cut(obs, " ")
+		judge(o, k, layer, cs.u, e, c.signers, h, cw, desc)
+		if cw == "true" || cw == "false" {
+			f := e.frames[0]
+			wantInfo := fmt.Sprintf("i:%s,%s,%s,", hTok(f.hash), hTok(f.caller), hTok(e.frames[len(e.frames)-1].hash))
+			if !strings.HasPrefix(info, wantInfo) {
+				o.Fail("witness-getters-disagree", k, "%s: real=%s expected=%s<flags> %s", layer, info, wantInfo, desc())
+			}
+		}
+	}
 	o.Count(layer + ":shape=" + c.shape())
-	if c.byKey != nil {
-		o.Count(layer + ":argument-is-public-key")
+	nt, thr := 0, 0
+	for _, ts := range c.trips {
+		nt += len(ts)
+		for _, t := range ts {
+			thr += b01(t.throws)
+		}
+	}
+	o.Count(fmt.Sprintf("%s:trips=%d", layer, nt))
+	if thr > 0 {
+		o.Count(layer + ":trip-throws-and-is-caught")
+	}
+	for _, in := range c.inner {
+		if in {
+			o.Count(layer + ":body-inside-CALL")
+			break
+		}
+	}
+	if c.leaf == mCWS {
+		o.Count(layer + ":leaf-is-safe-method")
 	}
 	if len(c.hops) > 0 && !e.frames[0].rs {
 		o.Count(layer + ":final-without-readstates")
